@@ -280,6 +280,11 @@ func (c *RollingFileAppender) clearExpiredFiles() {
 		if !strings.HasPrefix(entry.Name(), c.FileName+".") {
 			continue
 		}
+		// Only files produced by this appender itself ("<name>.<yyyyMMddHHmmss>")
+		// are subject to cleanup, not other files that merely share the prefix.
+		if !isRotationSuffix(entry.Name()[len(c.FileName)+1:]) {
+			continue
+		}
 		info, err := entry.Info()
 		if err != nil {
 			continue
@@ -289,4 +294,18 @@ func (c *RollingFileAppender) clearExpiredFiles() {
 			_ = os.Remove(filePath)
 		}
 	}
+}
+
+// isRotationSuffix reports whether s is a timestamp
+// as produced by TimeRotation.Format ("yyyyMMddHHmmss").
+func isRotationSuffix(s string) bool {
+	if len(s) != 14 {
+		return false
+	}
+	for i := range len(s) {
+		if s[i] < '0' || s[i] > '9' {
+			return false
+		}
+	}
+	return true
 }
